@@ -24,7 +24,10 @@ RULE = ('A server login script = any order/subset of {encryption request '
         'boundaries (47, 340, 384, 385, 390, 391, 393, 706, 707, 754, 757) '
         'plus random supported ones; client with/without a recording auth '
         'token and with/without an early listener that answers plugin '
-        'requests itself. Oracle: encryption response decrypts under the '
+        'requests itself; optionally as the second session of the object, '
+        'after a (compressed) one that ended by end-of-stream + reconnect '
+        'from an exception handler or by a disconnect packet + user '
+        'reconnect. Oracle: encryption response decrypts under the '
         'script\'s private key to a 16-byte secret and the exact token (L1); '
         'all later client bytes decrypt under reference CFB8 into '
         'well-formed frames and the client understands the encrypted stream '
